@@ -137,6 +137,8 @@ def run_property(prop, tier, base_seed, jobs=None, n_cases=None, only_seeds=None
     env["PYTHONPATH"] = os.pathsep.join([REPO, VERIF, DEPS])
     env["PYTHONDONTWRITEBYTECODE"] = "1"
     timeout = getattr(mod, "TIMEOUT", {"quick": 900, "thorough": 4 * 3600})[tier]
+    if os.environ.get("VERIF_TIMEOUT"):          # wall-clock watchdog override (a loaded machine is not a verdict)
+        timeout = int(os.environ["VERIF_TIMEOUT"])
     import tempfile
     procs = []
     for ch in chunks:
